@@ -5,6 +5,7 @@ import (
 	"encoding/json"
 	"fmt"
 	"io"
+	"runtime"
 
 	"nhooyr.io/websocket"
 	"verif/fw"
@@ -25,6 +26,8 @@ type c03AfterCase struct {
 	Comp    string `json:"comp"`
 	Failure string `json:"failure_on_a"` // none | eof | proto | limit | corrupt | abandon
 	Rounds  int    `json:"rounds"`
+	// ColdPools: the collector runs twice after A is closed (B and C start from empty pools)
+	ColdPools bool `json:"cold_pools,omitempty"`
 }
 
 func c03AfterOne(c *fw.Ctx, cs c03AfterCase) { c03AfterOneP(c, cs, "C03") }
@@ -94,6 +97,10 @@ func c03AfterOneP(c *fw.Ctx, cs c03AfterCase, prop string) {
 				return
 			}
 		}
+		if cs.ColdPools {
+			runtime.GC()
+			runtime.GC()
+		}
 		// --- connections B and C, read alternately
 		type side struct {
 			tag  byte
@@ -160,7 +167,8 @@ func c03AfterCases() []c03AfterCase {
 	for _, client := range []bool{false, true} {
 		for _, comp := range []string{"takeover", "no-takeover"} {
 			for _, f := range []string{"none", "eof", "proto", "limit", "corrupt", "abandon"} {
-				out = append(out, c03AfterCase{client, comp, f, 4})
+				out = append(out, c03AfterCase{Client: client, Comp: comp, Failure: f, Rounds: 4})
+				out = append(out, c03AfterCase{Client: client, Comp: comp, Failure: f, Rounds: 4, ColdPools: true})
 			}
 		}
 	}
